@@ -77,7 +77,7 @@ PROPS = {
     "C08": {
         # "exactly as many parameters as the statement declared": the registry entry made by the PREPARE reply
         "also": ["C10.reply", "U3.reply"],
-        "witness": ("w_server", ['w_c08_params', 'w_c10_registry']),
+        "witness": ("w_server", ['w_c08_params', 'w_c10_registry', 'w_c16_c17_stmt']),
         "title": "Prepared-statement parameters are decoded to exactly what the client bound",
         "kani": [("k2_commands", ["k2_parse_stmt_17", "k2_parse_stmt_18", "k2_parse_stmt_19"]), ("k3_decode", None)],
         "verus": [(U4, ["U4."]), (U3, ["U3.reply", "C10.reply"])],
